@@ -287,3 +287,36 @@ class WindowLemma(Lemma):
 
 
 CONTRACTS = [ThrottleCall(), FrameEntries(), WindowLemma()]
+
+
+class ThrottleFactory(Contract):
+    file, func, name = FILE, "throttle._wrap", "C15/throttling:throttle._wrap"
+    props = ("C15",)
+
+    def instantiate(self, it, info, cargs, node):
+        if info.name == "_AsyncThrottle":
+            self.made.append(cargs)
+            return it.st.alloc(info.cid)
+        return None
+
+    def setup(self, it, env):
+        st = it.st
+        self.made = []
+        self.fn = st.reg_fun(OracleV("function", is_async=True))
+        self.limit, self.period = V.VInt(st.fresh("limit", I)), st.fresh_val("period")
+        env.vars.update(limit=self.limit, period=self.period)
+        return None, CallArgs([self.fn])
+
+    def on_return(self, it, ret):
+        st = it.st
+        ok = len(self.made) == 1
+        st.check("P5:one-throttle-object-with-the-configured-limit-and-period",
+                 z3.BoolVal(ok) if not ok else
+                 z3.And(z3.BoolVal(len(self.made[0].pos) == 1) if len(self.made[0].pos) != 1 else self.made[0].pos[0] == self.fn,
+                        self.made[0].kw.get("limit") == self.limit, self.made[0].kw.get("period") == self.period))
+
+    def on_raise(self, it, exc):
+        it.st.check("P5:building-the-throttle-never-raises", z3.BoolVal(False))
+
+
+CONTRACTS = CONTRACTS + [ThrottleFactory()]
